@@ -658,11 +658,13 @@ func (s *AbsfsNFS) RemoveWithContext(ctx context.Context, dir *NFSNode, name str
 	if err != nil {
 		return fmt.Errorf("remove: failed to remove %s: %w", path, err)
 	}
-	// Invalidate caches
-	s.attrCache.Invalidate(path)
+	// Invalidate caches. The removed object may have been an (empty) directory:
+	// negative entries and listings cached below it go with it.
+	s.attrCache.InvalidateSubtree(path)
 	s.attrCache.Invalidate(dir.path)
 	if s.dirCache != nil {
 		s.dirCache.Invalidate(dir.path)
+		s.dirCache.InvalidateSubtree(path)
 	}
 	return nil
 }
